@@ -1,6 +1,7 @@
 package rules
 
 import (
+	"strings"
 	"go/ast"
 	"go/token"
 	"go/types"
@@ -31,6 +32,7 @@ func init() {
 		c13CloseFlushes(c, "C13.6c")
 		c13TransportUse(c)
 		wtCandidateRevision(c, "C13.10")
+		c01Kind(c, "C13.11") // the kind of every pre-encoded frame of a batch is decided per packet
 	})
 	register("C14", func(c *core.Ctx, tier string) {
 		c14LengthForms(c)
@@ -41,6 +43,8 @@ func init() {
 		c13WholePayload(c)
 		c14WriteOnlyTwoBuffers(c)
 		wtCandidateRevision(c, "C14.5")
+		c13Prepared(c) // C14.6: the prepared path is one frame per message too
+		c01Kind(c, "C14.7")
 		c13KindBit(c)
 	})
 }
@@ -729,6 +733,31 @@ func c13Prepared(c *core.Ctx) {
 			}
 		}
 		c.Need(R, "WriteMessage call in PreparedMessage.frame", n, 1)
+		// WriteMessage emits ONE frame only on its isServer fast path; the scratch connection the frame is built on
+		// takes that flag from the key (NewPreparedMessage asks for isServer: true, WritePreparedMessage for the
+		// connection's own flag) — left at its zero value every prepared payload above the write buffer is split
+		fromKey := false
+		for _, x := range fr.AllUnits() {
+			ast.Inspect(x.Body, func(nd ast.Node) bool {
+				lit, isL := nd.(*ast.CompositeLit)
+				if !isL || core.TypeName(x.Info().TypeOf(lit)) != "Conn" {
+					return true
+				}
+				for _, el := range lit.Elts {
+					kv, isKV := el.(*ast.KeyValueExpr)
+					if !isKV {
+						continue
+					}
+					if id, isI := kv.Key.(*ast.Ident); isI && id.Name == "isServer" {
+						if v, isC := core.ConstBool(x.Info(), kv.Value); (isC && v) || strings.HasSuffix(selPath(kv.Value), ".isServer") {
+							fromKey = true
+						}
+					}
+				}
+				return true
+			})
+		}
+		c.Check(R, "webtransport.(*PreparedMessage).frame/scratch-Conn.isServer-from-key", fr.Pos(), fromKey, "the connection the cached frame is written on has the server flag of the key (single-frame path of WriteMessage)")
 	}
 	wp := c.Fn(R, "webtransport.(*Conn).WritePreparedMessage")
 	if wp != nil {
